@@ -138,6 +138,15 @@ def run_case(col, pp, cfg, case):
     rbase, obase = world.base(residual), world.base(solution)
     names = set(sbase) | set(obase) | (set(vbase) if vbase else set())
     gsum = sum(ref.grain_base(n) / a for n, a in obase.items() if a > 0)
+    # substances of the stock whose share of the aliquot is near or below one storage grain arrive as 0 or 1 grain:
+    # one grain of each, weighted by its share of the stock's volume / mass / moles
+    stock_part = max((sbase[n] - rbase.get(n, 0.0)) / sbase[n] for n in sbase if sbase[n] > 0) if sbase else 0.0
+    for n in sbase:
+        exp_n = stock_part * sbase[n]
+        if sbase[n] > 0 and exp_n < 1e4 * ref.grain_base(n):
+            share = max(sbase[n] * ref.subs[n].factor(f) / ref.size(sbase, f) for f in ('L', 'g', 'mol') if ref.size(sbase, f) > 0)
+            gsum += share * ref.grain_base(n) / max(exp_n, ref.grain_base(n) * 1e-3)
+            col.label('aliquot-of-some-substance-near-one-grain')
     svol = ref.size(sbase, 'L')
     ovol = ref.size(obase, 'L')
     # the aliquots are measured out by volume, rounded to one grain of the volume storage unit: relative to the
